@@ -79,7 +79,9 @@ def gen_container(rng, col, depth=0, top=True):
     cls = rng.choice(classes) if top else rng.choice(classes[2:] + classes[:1])
     n = rng.choice((0, 1, 2, 3, 4, 6)) if not top else rng.choice((1, 2, 3, 5, 8))
     c = cls()
-    keys = ("a", "b", "c", "Long_Key")
+    # (two keys have characters at their ends that str.strip() would remove,
+    # one of them differs from "a" only by those)
+    keys = ("a", "b", "c", "Long_Key", "a\xa0", " \x1cpad\u2003")
     for _ in range(n):
         r = rng.random()
         if r < 0.35 or depth >= 3:
@@ -260,7 +262,8 @@ def one_case(rec, rng, col, m, mech, wit):
                     # instance, view indexing ...) must show this side's own list
                     try:
                         bad = compare_views(obj, Model(lst), ("a", "b", "c", "zz",
-                                                             "Long_Key"),
+                                                             "Long_Key", "a\xa0",
+                                                             " \x1cpad\u2003"),
                                             (7, "m", None), rec.c)
                     except Exception as e:      # an accessor died
                         bad = [("accessor raised", type(e).__name__, str(e)[:100])]
